@@ -42,9 +42,6 @@ Definition applies_spec (r : reason) (b : budget) : Prop :=
   | Some l => In r l
   end.
 
-(* the code's reading: an empty but non-nil list applies to nothing *)
-Definition applies_code (r : reason) (b : budget) : Prop := applies r b = true.
-
 (* percentages of the pool's initialized nodes, rounding up *)
 Definition value_spec (n : Z) (b : budget) : Z :=
   match b_nodes b with
@@ -54,18 +51,18 @@ Definition value_spec (n : Z) (b : budget) : Z :=
   end.
 
 (* [total] nodes of a pool of [n] counted nodes may be in disruption for reason [r] at [now] *)
-Definition within_budgets (app : reason -> budget -> Prop) (now n : Z) (r : reason) (bs : list budget) (total : Z) : Prop :=
+Definition within_budgets (now n : Z) (r : reason) (bs : list budget) (total : Z) : Prop :=
   (forall b, In b bs -> ~ malformed b) /\
-  (forall b, In b bs -> app r b -> active_spec now b -> total <= value_spec n b).
+  (forall b, In b bs -> applies_spec r b -> active_spec now b -> total <= value_spec n b).
 
 (* the property for one pool in one round: nothing selected, or selected + already consuming
    stays within every applicable active budget *)
-Definition round_ok (app : reason -> budget -> Prop) (now n : Z) (r : reason) (bs : list budget) (dis sel : Z) : Prop :=
-  sel = 0 \/ (0 < sel /\ within_budgets app now n r bs (sel + dis)).
+Definition round_ok (now n : Z) (r : reason) (bs : list budget) (dis sel : Z) : Prop :=
+  sel = 0 \/ (0 < sel /\ within_budgets now n r bs (sel + dis)).
 
 (* an "allowed disruptions" figure is sound if using all of it is within the budgets *)
-Definition allowed_ok (app : reason -> budget -> Prop) (now n : Z) (r : reason) (bs : list budget) (a : Z) : Prop :=
-  a <= 0 \/ within_budgets app now n r bs a.
+Definition allowed_ok (now n : Z) (r : reason) (bs : list budget) (a : Z) : Prop :=
+  a <= 0 \/ within_budgets now n r bs a.
 
 (* ---- boolean reflection, given the greatest hit at or before [now] ---- *)
 Variable last : sid -> option Z.
@@ -94,23 +91,19 @@ Definition applies_spec_b (r : reason) (b : budget) : bool :=
   | Some l => existsb (reason_eqb r) l
   end.
 
-Definition app_b (lenient : bool) : reason -> budget -> bool := if lenient then applies else applies_spec_b.
-
-Definition within_budgets_b (lenient : bool) (now n : Z) (r : reason) (bs : list budget) (total : Z) : bool :=
+Definition within_budgets_b (now n : Z) (r : reason) (bs : list budget) (total : Z) : bool :=
   forallb (fun b => negb (malformed_b b)) bs &&
-  forallb (fun b => negb (app_b lenient r b && active_b now b) || (total <=? value_spec n b)) bs.
+  forallb (fun b => negb (applies_spec_b r b && active_b now b) || (total <=? value_spec n b)) bs.
 
-Definition round_ok_gen_b (lenient : bool) (now : Z) (r : reason) (n dis sel : Z) (bs : list budget) : bool :=
-  (sel =? 0) || ((0 <? sel) && within_budgets_b lenient now n r bs (sel + dis)).
+Definition round_ok_b (now : Z) (r : reason) (n dis sel : Z) (bs : list budget) : bool :=
+  (sel =? 0) || ((0 <? sel) && within_budgets_b now n r bs (sel + dis)).
 
-Definition round_ok_b := round_ok_gen_b false.
-
-Definition allowed_ok_b (lenient : bool) (now n : Z) (r : reason) (bs : list budget) (a : Z) : bool :=
-  (a <=? 0) || within_budgets_b lenient now n r bs a.
+Definition allowed_ok_b (now n : Z) (r : reason) (bs : list budget) (a : Z) : bool :=
+  (a <=? 0) || within_budgets_b now n r bs a.
 
 (* a mapping entry v for a pool is sound if v >= 0 and selecting v nodes would be within budget *)
 Definition mapping_ok_b (now : Z) (r : reason) (ns : list node) (p : pool sid) (v : Z) : bool :=
   (0 <=? v) &&
-  round_ok_gen_b false now r (num_nodes (p_id p) ns) (disrupting (p_id p) ns) v (p_budgets p).
+  round_ok_b now r (num_nodes (p_id p) ns) (disrupting (p_id p) ns) v (p_budgets p).
 
 End Spec.
